@@ -440,6 +440,8 @@ class ExprMixin:
                 v = self.ev(e, st, old)
                 if v.sort != INT:
                     return None
+                if v.s.startswith("(seq.len ") or v.s.startswith("(str.len ") or v.s.isdigit():
+                    return f"(ite (< {v.s} {ln}) {v.s} {ln})"  # known non-negative bound
                 return f"(ite (>= {v.s} 0) (ite (< {v.s} {ln}) {v.s} {ln}) (ite (>= (+ {ln} {v.s}) 0) (+ {ln} {v.s}) 0))"
 
             lo = norm(sl.lower, "0")
@@ -464,6 +466,10 @@ class ExprMixin:
         return self.list_of(items)
 
     def list_of(self, items):
+        if "list_literal" in self.m.hooks:
+            h = self.m.hooks["list_literal"](self, items)
+            if h is not None:
+                return h
         if items and all(isinstance(i, T) and i.sort == items[0].sort and i.sort != NONE for i in items):
             return self.seq_of(items, items[0].sort)
         h = self.m.hooks["hetero_list"](self, items) if "hetero_list" in self.m.hooks else None
@@ -593,7 +599,8 @@ class ExprMixin:
             # filtered / unordered source: membership-only summary (order and multiplicity not tracked)
             r = self.opaque("lc", ("Seq", el.sort))
             y = "|q_y|"
-            st.pc.append(f"(forall (({y} {sort_smt(el.sort)})) (= (seq.contains {r.s} (seq.unit {y})) (exists ({qdecl}) (and {guard} (= {y} {el.s})))))")
+            st.pc.append(f"(forall ({qdecl}) (! (=> {guard} (seq.contains {r.s} (seq.unit {el.s}))) :pattern ((seq.unit {el.s}))))")
+            st.pc.append(f"(forall (({y} {sort_smt(el.sort)})) (! (=> (seq.contains {r.s} (seq.unit {y})) (exists ({qdecl}) (and {guard} (= {y} {el.s})))) :pattern ((seq.contains {r.s} (seq.unit {y})))))")
             self.note("comprehension-membership-only", ast.unparse(n)[:50], n.lineno)
             return r
         self.note("abstracted-expr", "comprehension " + ast.unparse(n)[:40], n.lineno)
@@ -625,6 +632,19 @@ class ExprMixin:
         v = self.ev(it, st, old)
         if "iter" in self.m.hooks and isinstance(v, T):
             v = self.m.hooks["iter"](self, v, st) or v
+        if isinstance(v, tuple) and v and v[0] in ("zip", "enum") and isinstance(target, ast.Tuple) and len(target.elts) == 2 and all(isinstance(t, ast.Name) for t in target.elts):
+            def binder(tag, v=v):
+                i = f"|q_i{tag}|"
+                if v[0] == "enum":
+                    xs = v[1]
+                    upd = {"$seq": xs, target.elts[0].id: T(INT, i), target.elts[1].id: T(xs.sort[1], f"(seq.nth {xs.s} {i})")}
+                    ln = f"(seq.len {xs.s})"
+                else:
+                    xs, ys = v[1], v[2]
+                    upd = {"$seq": xs, target.elts[0].id: T(xs.sort[1], f"(seq.nth {xs.s} {i})"), target.elts[1].id: T(ys.sort[1], f"(seq.nth {ys.s} {i})")}
+                    ln = f"(ite (<= (seq.len {xs.s}) (seq.len {ys.s})) (seq.len {xs.s}) (seq.len {ys.s}))"
+                return [(i, INT)], f"(and (>= {i} 0) (< {i} {ln}))", upd
+            return ("zipseq" if v[0] == "zip" else "seq"), binder
         if isinstance(v, T) and isinstance(v.sort, tuple):
             if v.sort[0] == "Map" and isinstance(target, ast.Name):
                 def binder(tag, m=v):
